@@ -1,5 +1,6 @@
 SPECIFICATION Spec
 CONSTANTS
+  Prefixes = {"none"}
   Alphabet = {"lt", "gt", "slash", "sp", "x", "eq", "nul"}
   MaxLen = 5
   Emit = FALSE
